@@ -164,6 +164,9 @@ def ensure_project():
     rc, out = _run(["/venv/bin/python", os.path.join(VERIF, "harness", "gen_consts.py")],
                    env=dict(os.environ, VERIF_REPO=REPO))
     consts_ok = rc == 0
+    rc2, out2 = _run(["/venv/bin/python", os.path.join(VERIF, "harness", "py2coq.py")],
+                     env=dict(os.environ, VERIF_REPO=REPO))
+    out += out2   # a failed kernel translation writes a non-compiling Gen/Kernels.v (fail closed)
     vs = []
     for root, _, files in os.walk(COQ):
         for f in files:
@@ -269,10 +272,18 @@ class Ctx:
 
     # -------------------------------------------------------- proofs
     def proofs(self, props_file=None, extra_axioms=()):
-        """Build the dependency cone of coq/<prop>/Props.v, recompile it, and
-        count one obligation per Print Assumptions block."""
+        """Build the dependency cone of coq/<prop>/Props.v (or the given file / list of
+        files), recompile them, and count one obligation per Print Assumptions block."""
         self.extra_axioms = tuple(extra_axioms)
-        props_file = props_file or "%s/Props.v" % self.prop
+        files = props_file or "%s/Props.v" % self.prop
+        if isinstance(files, str):
+            files = [files]
+        ok = True
+        for i, f in enumerate(files):
+            ok = self._proofs_one(f, gate=(i == 0)) and ok
+        return ok
+
+    def _proofs_one(self, props_file, gate=True):
         with Lock(os.path.join(WORK, ".coq.lock")):
             consts_ok, cout = ensure_project()
             if not consts_ok:
@@ -286,7 +297,7 @@ class Ctx:
         self.build_log = out
         # grep gate over this property's directory, Base and Gen
         gate_hits = []
-        for d in (self.prop, "Base", "Gen"):
+        for d in (self.prop, "Base", "Gen") if gate else ():
             dd = os.path.join(COQ, d)
             if not os.path.isdir(dd):
                 continue
@@ -297,8 +308,9 @@ class Ctx:
                         if m.group(0) in ("Hypothesis", "Hypotheses", "Variable", "Variables") and in_section(txt, m.start()):
                             continue
                         gate_hits.append("%s/%s: %s" % (d, f, m.group(0)))
-        self.obligations.append({"name": "grep gate (no Admitted/Axiom/Parameter/unsafe flags)", "ok": not gate_hits,
-                                 "detail": "; ".join(gate_hits[:10])})
+        if gate:
+            self.obligations.append({"name": "grep gate (no Admitted/Axiom/Parameter/unsafe flags)", "ok": not gate_hits,
+                                     "detail": "; ".join(gate_hits[:10])})
         src = open(os.path.join(COQ, props_file)).read()
         thms = re.findall(r"^\s*(?:Theorem|Lemma|Example|Corollary)\s+([\w']+)", strip_coq_comments(src), re.M)
         prints = re.findall(r"Print Assumptions\s+([\w'.]+)\s*\.", strip_coq_comments(src))
@@ -312,7 +324,7 @@ class Ctx:
             return False
         blocks = parse_assumptions(out)
         if len(blocks) != len(prints):
-            self.obligations.append({"name": "Print Assumptions blocks (%d) match statements (%d)" % (len(blocks), len(prints)),
+            self.obligations.append({"name": "Print Assumptions blocks (%d) match statements (%d) in %s" % (len(blocks), len(prints), props_file),
                                      "ok": False, "detail": out[-2000:]})
         for p, (closed, names) in zip(prints, blocks):
             bad = [n for n in names if not axiom_allowed(n, self.extra_axioms)]
@@ -320,7 +332,7 @@ class Ctx:
                                      "detail": "Closed under the global context" if closed else "depends on: " + ", ".join(names)})
         missing = [t for t in thms if t not in prints and not t.endswith("_example") and not t.startswith("ex_")]
         if missing:
-            self.notes.append("theorems in Props without Print Assumptions: %s" % missing)
+            self.notes.append("theorems in %s without Print Assumptions: %s" % (props_file, missing))
         return all(o["ok"] for o in self.obligations)
 
     # -------------------------------------------------------- correspondence in Coq
